@@ -133,6 +133,262 @@ theorem mem_uniRemove {m : Cmap} (h : UniWF m) (n n' : String) (vs : List Nat) (
         · have e' : ¬ c = v := fun x => e x.symm
           simp [e, e']
 
+/-! ### the unicode map, with multiplicities -/
+
+/-- `k` applications of `g` -/
+def iter {α : Type} (g : α → α) : Nat → α → α
+  | 0, x => x
+  | k + 1, x => iter g k (g x)
+
+/-- a fold of per-code-point steps, each of which rewrites the one entry it addresses with `g` -/
+theorem namesAt_foldl_step (step : Cmap → Nat → Cmap) (g : List String → List String) (P : Cmap → Prop)
+    (hstep : ∀ m v, P m → P (step m v) ∧ ∀ c, namesAt (step m v) c = if v = c then g (namesAt m c) else namesAt m c)
+    (vs : List Nat) (m : Cmap) (hm : P m) :
+    P (vs.foldl step m) ∧ ∀ c, namesAt (vs.foldl step m) c = iter g (vs.count c) (namesAt m c) := by
+  induction vs generalizing m with
+  | nil => exact ⟨hm, fun c => rfl⟩
+  | cons v vs ih =>
+    obtain ⟨h1, h2⟩ := hstep m v hm
+    obtain ⟨h3, h4⟩ := ih (step m v) h1
+    refine ⟨h3, fun c => ?_⟩
+    simp only [List.foldl_cons]
+    rw [h4, h2, List.count_cons]
+    by_cases e : v = c
+    · subst e; simp [iter]
+    · simp [e]
+
+theorem mapWF_nil : MapWF [] := ⟨by simp [AL.keys], by simp⟩
+
+theorem mapWF_set {m : Cmap} (h : MapWF m) (v : Nat) (l : List String) (hl : l ≠ []) : MapWF (AL.set m v l) := by
+  refine ⟨AL.nodup_keys_set _ _ _ h.keys, ?_⟩
+  intro p hp
+  rcases AL.mem_set hp with e | hm
+  · subst e; exact hl
+  · exact h.nonempty _ hm
+
+theorem mapWF_erase {m : Cmap} (h : MapWF m) (v : Nat) : MapWF (AL.erase m v) :=
+  ⟨AL.nodup_keys_erase _ _ h.keys, fun p hp => h.nonempty _ (AL.mem_erase hp)⟩
+
+/-- one round of `removeGlyphData`'s loop -/
+def removeOne (n : String) (m : Cmap) (v : Nat) : Cmap :=
+  match AL.get? m v with
+  | none => m
+  | some l => if (l.erase n).isEmpty then AL.erase m v else AL.set m v (l.erase n)
+
+theorem uniRemove_eq_foldl (m : Cmap) (n : String) (vs : List Nat) :
+    uniRemove m n vs = vs.foldl (removeOne n) m := by
+  induction vs generalizing m with
+  | nil => rfl
+  | cons v vs ih =>
+    simp only [List.foldl_cons]
+    rw [← ih]
+    unfold removeOne
+    cases hg : AL.get? m v with
+    | none => simp [uniRemove, hg]
+    | some l => simp [uniRemove, hg]
+
+theorem removeOne_spec (n : String) (m : Cmap) (v : Nat) (h : MapWF m) :
+    MapWF (removeOne n m v) ∧
+      ∀ c, namesAt (removeOne n m v) c = if v = c then (namesAt m c).erase n else namesAt m c := by
+  unfold removeOne
+  cases hg : AL.get? m v with
+  | none =>
+    refine ⟨h, fun c => ?_⟩
+    by_cases e : v = c
+    · subst e; simp [namesAt, hg]
+    · simp [e]
+  | some l =>
+    have hnames : namesAt m v = l := by simp [namesAt, hg]
+    simp only
+    by_cases hemp : (l.erase n).isEmpty = true
+    · rw [if_pos hemp]
+      refine ⟨mapWF_erase h v, fun c => ?_⟩
+      rw [namesAt_erase _ _ _ h.keys]
+      by_cases e : v = c
+      · subst e
+        have : l.erase n = [] := by simpa using hemp
+        simp [hnames, this]
+      · simp [e]
+    · rw [if_neg hemp]
+      refine ⟨mapWF_set h v _ (by simpa using hemp), fun c => ?_⟩
+      rw [namesAt_set]
+      by_cases e : v = c
+      · subst e; simp [hnames]
+      · simp [e]
+
+theorem count_iter_erase (n n' : String) (k : Nat) (l : List String) :
+    (iter (fun l => l.erase n) k l).count n' = if n' = n then l.count n - k else l.count n' := by
+  induction k generalizing l with
+  | zero => by_cases e : n' = n <;> simp [iter, e]
+  | succ k ih =>
+    simp only [iter]
+    rw [ih]
+    by_cases e : n' = n
+    · simp only [e, if_true]
+      rw [List.count_erase_self]
+      omega
+    · simp only [e, if_false]
+      exact List.count_erase_of_ne e
+
+/-- `removeGlyphData(n, vs)`: the shape of the map is kept, and under code point `c` one occurrence of `n` goes
+for every occurrence of `c` in `vs` (as far as there are any); no other name is touched -/
+theorem uniRemove_spec {m : Cmap} (h : MapWF m) (n : String) (vs : List Nat) :
+    MapWF (uniRemove m n vs) ∧ ∀ c n', (namesAt (uniRemove m n vs) c).count n' =
+      if n' = n then (namesAt m c).count n - vs.count c else (namesAt m c).count n' := by
+  rw [uniRemove_eq_foldl]
+  obtain ⟨h1, h2⟩ := namesAt_foldl_step (removeOne n) (fun l => l.erase n) MapWF
+    (fun m v hm => removeOne_spec n m v hm) vs m h
+  refine ⟨h1, fun c n' => ?_⟩
+  rw [h2, count_iter_erase]
+
+/-- `addGlyphData`'s guarded append -/
+def addG (n : String) (l : List String) : List String := if n ∈ l then l else l ++ [n]
+
+theorem addG_ne_nil (n : String) (l : List String) : addG n l ≠ [] := by
+  unfold addG
+  split
+  · rename_i h; intro e; rw [e] at h; simp at h
+  · simp
+
+theorem mem_addG_self (n : String) (l : List String) : n ∈ addG n l := by
+  unfold addG; split <;> simp [*]
+
+theorem count_addG (n n' : String) (l : List String) :
+    (addG n l).count n' = if n' = n then max 1 (l.count n) else l.count n' := by
+  unfold addG
+  by_cases hm : n ∈ l
+  · rw [if_pos hm]
+    by_cases e : n' = n
+    · subst e
+      have : 0 < l.count n' := List.count_pos_iff.mpr hm
+      simp only [if_true]; omega
+    · simp [e]
+  · rw [if_neg hm, List.count_append, List.count_singleton]
+    by_cases e : n' = n
+    · subst e
+      have : l.count n' = 0 := List.count_eq_zero.mpr hm
+      simp [this]
+    · have e' : ¬ n = n' := fun x => e x.symm
+      simp [e, e']
+
+def addOne (n : String) (m : Cmap) (v : Nat) : Cmap := AL.set m v (addG n (namesAt m v))
+
+theorem uniAdd_eq_foldl (m : Cmap) (n : String) (vs : List Nat) : uniAdd m n vs = vs.foldl (addOne n) m := by
+  induction vs generalizing m with
+  | nil => rfl
+  | cons v vs ih =>
+    simp only [List.foldl_cons]
+    rw [← ih]
+    rfl
+
+theorem iter_addG (n : String) (k : Nat) (l : List String) :
+    iter (addG n) k l = if k = 0 then l else addG n l := by
+  induction k generalizing l with
+  | zero => rfl
+  | succ k ih =>
+    simp only [iter]
+    rw [ih]
+    by_cases e : k = 0
+    · simp [e]
+    · simp only [e, if_false, Nat.succ_ne_zero]
+      have hm := mem_addG_self n l
+      show addG n (addG n l) = addG n l
+      generalize addG n l = l' at hm
+      unfold addG
+      simp [hm]
+
+/-- `addGlyphData(n, vs)`: under every code point of `vs` the name is appended unless it is listed already -/
+theorem uniAdd_spec {m : Cmap} (h : MapWF m) (n : String) (vs : List Nat) :
+    MapWF (uniAdd m n vs) ∧ ∀ c, namesAt (uniAdd m n vs) c = if c ∈ vs then addG n (namesAt m c) else namesAt m c := by
+  rw [uniAdd_eq_foldl]
+  obtain ⟨h1, h2⟩ := namesAt_foldl_step (addOne n) (addG n) MapWF
+    (fun m v hm => ⟨mapWF_set hm v _ (addG_ne_nil n _), fun c => by
+      unfold addOne; rw [namesAt_set]; by_cases e : v = c
+      · subst e; simp
+      · simp [e]⟩) vs m h
+  refine ⟨h1, fun c => ?_⟩
+  rw [h2, iter_addG]
+  by_cases hc : c ∈ vs
+  · have : vs.count c ≠ 0 := by have := List.count_pos_iff.mpr hc; omega
+    simp [hc, this]
+  · have : vs.count c = 0 := List.count_eq_zero.mpr hc
+    simp [hc, this]
+
+theorem count_uniAdd {m : Cmap} (h : MapWF m) (n : String) (vs : List Nat) (c : Nat) (n' : String) :
+    (namesAt (uniAdd m n vs) c).count n' =
+      if n' = n ∧ c ∈ vs then max 1 ((namesAt m c).count n) else (namesAt m c).count n' := by
+  rw [(uniAdd_spec h n vs).2]
+  by_cases hc : c ∈ vs
+  · rw [if_pos hc, count_addG]
+    by_cases e : n' = n <;> simp [e, hc]
+  · simp [hc]
+
+def appendOne (n : String) (m : Cmap) (v : Nat) : Cmap := AL.set m v (namesAt m v ++ [n])
+
+theorem uniAppend_eq_foldl (m : Cmap) (n : String) (vs : List Nat) : uniAppend m n vs = vs.foldl (appendOne n) m := by
+  induction vs generalizing m with
+  | nil => rfl
+  | cons v vs ih =>
+    simp only [List.foldl_cons]
+    rw [← ih]
+    rfl
+
+theorem count_iter_append (n n' : String) (k : Nat) (l : List String) :
+    (iter (fun l => l ++ [n]) k l).count n' = l.count n' + if n' = n then k else 0 := by
+  induction k generalizing l with
+  | zero => simp [iter]
+  | succ k ih =>
+    simp only [iter]
+    rw [ih, List.count_append, List.count_singleton]
+    by_cases e : n' = n
+    · subst e; simp; omega
+    · have e' : ¬ n = n' := fun x => e x.symm
+      simp [e, e']
+
+/-- the lazy constructor's unguarded appends for one loaded glyph -/
+theorem uniAppend_spec {m : Cmap} (h : MapWF m) (n : String) (vs : List Nat) :
+    MapWF (uniAppend m n vs) ∧ ∀ c n', (namesAt (uniAppend m n vs) c).count n' =
+      (namesAt m c).count n' + if n' = n then vs.count c else 0 := by
+  rw [uniAppend_eq_foldl]
+  obtain ⟨h1, h2⟩ := namesAt_foldl_step (appendOne n) (fun l => l ++ [n]) MapWF
+    (fun m v hm => ⟨mapWF_set hm v _ (by simp), fun c => by
+      unfold appendOne; rw [namesAt_set]; by_cases e : v = c
+      · subst e; simp
+      · simp [e]⟩) vs m h
+  refine ⟨h1, fun c n' => ?_⟩
+  rw [h2, count_iter_append]
+
+
+/-- which code points list a name: each once (one entry per code point) -/
+theorem count_codesOf (m : Cmap) (hk : (AL.keys m).Nodup) (n : String) (c : Nat) :
+    (codesOf m n).count c = if n ∈ namesAt m c then 1 else 0 := by
+  induction m with
+  | nil => simp [codesOf, namesAt]
+  | cons p rest ih =>
+    obtain ⟨k, l⟩ := p
+    simp only [AL.keys, List.map_cons, List.nodup_cons] at hk
+    have ih' := ih (by simpa [AL.keys] using hk.2)
+    have hcons : codesOf ((k, l) :: rest) n = if n ∈ l then k :: codesOf rest n else codesOf rest n := by
+      unfold codesOf
+      by_cases hm : n ∈ l <;> simp [List.filter_cons, hm]
+    have hnames : namesAt ((k, l) :: rest) c = if k = c then l else namesAt rest c := by
+      unfold namesAt
+      by_cases e : k = c <;> simp [e]
+    rw [hcons, hnames]
+    by_cases e : k = c
+    · subst e
+      have hnone : AL.get? rest k = none := AL.get?_eq_none_of_not_mem (by simpa [AL.keys] using hk.1)
+      have hz : (codesOf rest n).count k = 0 := by rw [ih']; simp [namesAt, hnone]
+      by_cases hm : n ∈ l
+      · simp [hm, List.count_cons, hz]
+      · simp [hm, hz]
+    · simp only [e, if_false]
+      by_cases hm : n ∈ l
+      · simp only [hm, if_true, List.count_cons]
+        have : ¬ (k == c) = true := by simpa using e
+        simp [this, ih']
+      · simp only [hm, if_false]; exact ih'
+
 /-! ### abstraction and invariant, primitive by primitive -/
 
 theorem mem_addKey (ks : List String) (n k : String) : k ∈ addKey ks n ↔ k ∈ ks ∨ k = n := by
@@ -207,10 +463,20 @@ theorem abs_of_not_loaded {s : State} {n : String} (h : AL.get? s.loaded n = non
     abs s n = if n ∈ s.sched then none else AL.get? s.disk n := by
   unfold abs; simp [h]
 
-/-- `load` is invisible: it installs exactly the record the abstraction already showed -/
+/-! ### states that differ in the unicode data only -/
+
+theorem abs_withUni (s : State) (u : Option Cmap) (k : String) : abs (withUni s u) k = abs s k := rfl
+
+theorem wf_withUni {s : State} (h : WF s) (u : Option Cmap) : WF (withUni s u) :=
+  ⟨h.diskKeys, h.loadedKeys, h.keysNodup, h.schedNodup, h.schedDisk, h.schedNotLoaded, h.keysIff, h.cleanEq⟩
+
+theorem scan_withUni {s : State} (h : ScanOK s) (u : Option Cmap) : ScanOK (withUni s u) := fun n r => h n r
+
+/-- `load` is invisible: it installs exactly the record the abstraction already showed, and leaves the unicode
+data alone -/
 theorem load_ok {s s' : State} {n : String} (h : WF s) (hl : load s n = .ok s')
     (hnot : AL.get? s.loaded n = none) :
-    ∃ r, AL.get? s.disk n = some r ∧ n ∉ s.sched ∧ s' = insertGlyph s n r false ∧ abs s n = some r := by
+    ∃ r, AL.get? s.disk n = some r ∧ n ∉ s.sched ∧ s' = withUni (insertGlyph s n r false) s.uni ∧ abs s n = some r := by
   unfold load at hl
   cases hd : AL.get? s.disk n with
   | none => simp [hd] at hl
@@ -235,15 +501,49 @@ theorem load_error_iff {s : State} {n : String} (hnot : AL.get? s.loaded n = non
 
 /-! ### the unicode invariant under abstract updates -/
 
+theorem cnt_pos_iff (f : String → Option GRec) (n : String) (c : Nat) :
+    0 < cnt f n c ↔ ∃ r, f n = some r ∧ c ∈ r.unicodes := by
+  unfold cnt
+  cases f n with
+  | none => simp
+  | some r => simp [List.count_pos_iff]
+
+/-- membership reading of the invariant: no stale names, none missing -/
+theorem uniInv_mem {f : String → Option GRec} {u : Option Cmap} {m : Cmap} (hu : UniInv f u) (hm : u = some m)
+    (c : Nat) (n : String) : n ∈ namesAt m c ↔ ∃ r, f n = some r ∧ c ∈ r.unicodes := by
+  obtain ⟨_, h⟩ := hu m hm
+  obtain ⟨h1, h2⟩ := h c n
+  rw [← cnt_pos_iff, ← List.count_pos_iff]
+  constructor
+  · intro x; omega
+  · exact h2
+
 theorem uniInv_congr {f g : String → Option GRec} {u : Option Cmap} (h : ∀ k, f k = g k) (hu : UniInv f u) :
     UniInv g u := by
-  intro m hm
-  obtain ⟨h1, h2⟩ := hu m hm
-  refine ⟨h1, ?_⟩
-  intro c n; rw [h2, h]
+  have : f = g := funext h
+  subst this
+  exact hu
 
 theorem uniInv_none (f : String → Option GRec) : UniInv f none := by
   intro m hm; simp at hm
+
+theorem cnt_upd_none (f : String → Option GRec) (n : String) (c : Nat) : cnt (upd f n none) n c = 0 := by
+  simp [cnt, upd]
+
+theorem cnt_upd_some (f : String → Option GRec) (n : String) (r : GRec) (c : Nat) :
+    cnt (upd f n (some r)) n c = r.unicodes.count c := by
+  simp [cnt, upd]
+
+theorem cnt_upd_ne (f : String → Option GRec) (n n' : String) (v : Option GRec) (c : Nat) (e : n' ≠ n) :
+    cnt (upd f n v) n' c = cnt f n' c := by
+  simp [cnt, upd, e]
+
+theorem cnt_of_some {f : String → Option GRec} {n : String} {r : GRec} (hf : f n = some r) (c : Nat) :
+    cnt f n c = r.unicodes.count c := by
+  simp [cnt, hf]
+
+theorem cnt_of_none {f : String → Option GRec} {n : String} (hf : f n = none) (c : Nat) : cnt f n c = 0 := by
+  simp [cnt, hf]
 
 theorem uniInv_remove {f : String → Option GRec} {u : Option Cmap} (hu : UniInv f u) (n : String) (r : GRec)
     (hf : f n = some r) : UniInv (upd f n none) (u.map (fun m => uniRemove m n r.unicodes)) := by
@@ -253,13 +553,17 @@ theorem uniInv_remove {f : String → Option GRec} {u : Option Cmap} (hu : UniIn
   | some m =>
     simp at hm'; subst hm'
     obtain ⟨h1, h2⟩ := hu m rfl
-    refine ⟨uniWF_uniRemove h1 _ _, ?_⟩
-    intro c n'
-    rw [mem_uniRemove h1, h2]
-    unfold upd
+    obtain ⟨hw, hc⟩ := uniRemove_spec h1 n r.unicodes
+    refine ⟨hw, fun c n' => ?_⟩
+    rw [hc]
+    obtain ⟨ha, hb⟩ := h2 c n'
     by_cases e : n' = n
-    · subst e; simp [hf]
-    · simp [e]
+    · subst e
+      have h3 := cnt_of_some hf c
+      have h4 := cnt_upd_none f n' c
+      simp only [if_true]; omega
+    · have h3 := cnt_upd_ne f n n' none c e
+      simp only [e, if_false]; omega
 
 theorem uniInv_remove_absent {f : String → Option GRec} {u : Option Cmap} (hu : UniInv f u) (n : String)
     (vs : List Nat) (hf : f n = none) : UniInv f (u.map (fun m => uniRemove m n vs)) := by
@@ -269,17 +573,15 @@ theorem uniInv_remove_absent {f : String → Option GRec} {u : Option Cmap} (hu 
   | some m =>
     simp at hm'; subst hm'
     obtain ⟨h1, h2⟩ := hu m rfl
-    refine ⟨uniWF_uniRemove h1 _ _, ?_⟩
-    intro c n'
-    rw [mem_uniRemove h1, h2]
-    constructor
-    · exact fun h => h.1
-    · intro h
-      refine ⟨h, ?_⟩
-      rintro ⟨e, _⟩
-      subst e
-      obtain ⟨r, hr, _⟩ := h
-      rw [hf] at hr; simp at hr
+    obtain ⟨hw, hc⟩ := uniRemove_spec h1 n vs
+    refine ⟨hw, fun c n' => ?_⟩
+    rw [hc]
+    obtain ⟨ha, hb⟩ := h2 c n'
+    by_cases e : n' = n
+    · subst e
+      have h3 := cnt_of_none hf c
+      simp only [if_true]; omega
+    · simp only [e, if_false]; omega
 
 theorem uniInv_add {f : String → Option GRec} {u : Option Cmap} (hu : UniInv f u) (n : String) (r : GRec)
     (hf : f n = none) : UniInv (upd f n (some r)) (u.map (fun m => uniAdd m n r.unicodes)) := by
@@ -289,30 +591,20 @@ theorem uniInv_add {f : String → Option GRec} {u : Option Cmap} (hu : UniInv f
   | some m =>
     simp at hm'; subst hm'
     obtain ⟨h1, h2⟩ := hu m rfl
-    refine ⟨uniWF_uniAdd h1 _ _, ?_⟩
-    intro c n'
-    rw [mem_uniAdd, h2]
-    unfold upd
+    refine ⟨(uniAdd_spec h1 n r.unicodes).1, fun c n' => ?_⟩
+    rw [count_uniAdd h1]
+    obtain ⟨ha, hb⟩ := h2 c n'
     by_cases e : n' = n
-    · subst e; simp [hf]
-    · simp [e]
-
-theorem uniInv_add_same {f : String → Option GRec} {u : Option Cmap} (hu : UniInv f u) (n : String) (r : GRec)
-    (hf : f n = some r) : UniInv f (u.map (fun m => uniAdd m n r.unicodes)) := by
-  intro m' hm'
-  cases u with
-  | none => simp at hm'
-  | some m =>
-    simp at hm'; subst hm'
-    obtain ⟨h1, h2⟩ := hu m rfl
-    refine ⟨uniWF_uniAdd h1 _ _, ?_⟩
-    intro c n'
-    rw [mem_uniAdd, h2]
-    constructor
-    · rintro (h | ⟨e, hc⟩)
-      · exact h
-      · subst e; exact ⟨r, hf, hc⟩
-    · exact Or.inl
+    · subst e
+      have h3 := cnt_of_none hf c
+      have h4 := cnt_upd_some f n' r c
+      by_cases hc : c ∈ r.unicodes
+      · have hp := List.count_pos_iff.mpr hc
+        rw [if_pos ⟨rfl, hc⟩]; omega
+      · have hz := List.count_eq_zero.mpr hc
+        rw [if_neg (fun x => hc x.2)]; omega
+    · have h3 := cnt_upd_ne f n n' (some r) c e
+      simp only [e, false_and, if_false]; omega
 
 theorem uniAdd_nil (m : Cmap) (n : String) : uniAdd m n [] = m := rfl
 
@@ -338,21 +630,36 @@ theorem upd_same (f : String → Option GRec) (n : String) (v : Option GRec) (h 
 theorem abs_insertGlyph_upd (s : State) (n : String) (r : GRec) (d : Bool) (k : String) :
     abs (insertGlyph s n r d) k = upd (abs s) n (some r) k := abs_insertGlyph s n r d k
 
-/-! ### getItem -/
+/-! ### glyphs that have not been read carry duplicate-free lists -/
 
-theorem recsOK_congr {s s' : State} (h : ∀ k, abs s' k = abs s k) (hr : RecsOK s) : RecsOK s' := by
-  intro n r hn; rw [h] at hn; exact hr n r hn
+theorem scan_insertGlyph {s : State} (h : ScanOK s) (n : String) (r : GRec) (d : Bool) :
+    ScanOK (insertGlyph s n r d) := by
+  intro k x hk hl
+  have hl' : AL.get? (AL.set s.loaded n (r, d)) k = none := hl
+  rw [AL.get?_set] at hl'
+  by_cases e : n = k
+  · simp [e] at hl'
+  · simp only [e, if_false] at hl'
+    rw [abs_insertGlyph] at hk
+    have e' : ¬ k = n := fun x => e x.symm
+    simp only [e', if_false] at hk
+    exact h k x hk hl'
+
+theorem scan_forgetUni {s : State} (h : ScanOK s) (n : String) (us : List Nat) : ScanOK (forgetUni s n us) :=
+  fun k r => h k r
+
+/-! ### getItem -/
 
 theorem getItem_spec {s s' : State} {n : String} {r : GRec} (h : Good s) (hg : getItem s n = .ok (s', r)) :
     Good s' ∧ (∀ k, abs s' k = abs s k) ∧ abs s n = some r ∧ (∃ d, AL.get? s'.loaded n = some (r, d)) ∧
-    s'.disk = s.disk ∧ (s.uni.isSome ↔ s'.uni.isSome) := by
+    s'.disk = s.disk ∧ s'.uni = s.uni := by
   unfold getItem at hg
   cases hl : AL.get? s.loaded n with
   | some p =>
     obtain ⟨r0, d0⟩ := p
     simp only [hl, Except.ok.injEq, Prod.mk.injEq] at hg
     obtain ⟨rfl, rfl⟩ := hg
-    exact ⟨h, fun _ => rfl, abs_of_loaded hl, ⟨d0, hl⟩, rfl, Iff.rfl⟩
+    exact ⟨h, fun _ => rfl, abs_of_loaded hl, ⟨d0, hl⟩, rfl, rfl⟩
   | none =>
     simp only [hl] at hg
     cases hld : load s n with
@@ -361,18 +668,19 @@ theorem getItem_spec {s s' : State} {n : String} {r : GRec} (h : Good s) (hg : g
       simp only [hld] at hg
       obtain ⟨r1, hdisk, hns, hs1, habs⟩ := load_ok h.wf hld hl
       have hget : AL.get? s1.loaded n = some (r1, false) := by
-        rw [hs1]; simp [insertGlyph]
+        rw [hs1]; simp [insertGlyph, withUni]
       simp only [hget, Except.ok.injEq, Prod.mk.injEq] at hg
       obtain ⟨rfl, rfl⟩ := hg
       have hsame : ∀ k, abs s1 k = abs s k := by
-        intro k; rw [hs1, abs_insertGlyph_upd]; exact upd_same _ _ _ habs k
-      refine ⟨⟨?_, ?_, recsOK_congr hsame h.recs⟩, hsame, habs, ⟨false, hget⟩, by rw [hs1]; rfl, ?_⟩
-      · rw [hs1]; exact wf_insertGlyph h.wf n r1 false (fun _ => hdisk)
+        intro k; rw [hs1, abs_withUni, abs_insertGlyph_upd]; exact upd_same _ _ _ habs k
+      refine ⟨⟨?_, ?_, ?_⟩, hsame, habs, ⟨false, hget⟩, by rw [hs1]; rfl, by rw [hs1]; rfl⟩
+      · rw [hs1]; exact wf_withUni (wf_insertGlyph h.wf n r1 false (fun _ => hdisk)) _
       · unfold UniOK
         apply uniInv_congr (fun k => (hsame k).symm)
-        rw [hs1, insertGlyph_uni]
-        exact uniInv_add_same h.uni n r1 habs
-      · rw [hs1, insertGlyph_uni]; cases s.uni <;> simp
+        have : s1.uni = s.uni := by rw [hs1]; rfl
+        rw [this]
+        exact h.uni
+      · rw [hs1]; exact scan_withUni (scan_insertGlyph h.scan n r1 false) _
 
 theorem getItem_error_iff {s : State} {n : String} (h : WF s) :
     (∃ e, getItem s n = .error e) ↔ abs s n = none := by
@@ -387,7 +695,7 @@ theorem getItem_error_iff {s : State} {n : String} (h : WF s) :
     | ok s1 =>
       obtain ⟨r1, _, _, hs1, _⟩ := load_ok h hld hl
       have hget : AL.get? s1.loaded n = some (r1, false) := by
-        rw [hs1]; simp [insertGlyph]
+        rw [hs1]; simp [insertGlyph, withUni]
       simp [hget]
 
 /-! ### dropGlyph / forgetUni -/
@@ -466,21 +774,16 @@ theorem wf_dropGlyph {s : State} (h : WF s) (n : String) : WF (dropGlyph s n) :=
     · simp at hk
     · exact h.cleanEq k r' hk
 
-theorem recsOK_upd_none {f : String → Option GRec} (n : String)
-    (hr : ∀ k r, f k = some r → r.unicodes.Nodup) : ∀ k r, upd f n none k = some r → r.unicodes.Nodup := by
-  intro k r hk
+theorem scan_dropGlyph {s : State} (hw : WF s) (h : ScanOK s) (n : String) : ScanOK (dropGlyph s n) := by
+  intro k x hk hl
+  rw [abs_dropGlyph hw] at hk
   unfold upd at hk
-  split at hk
-  · simp at hk
-  · exact hr k r hk
-
-theorem recsOK_upd_some {f : String → Option GRec} (n : String) (r0 : GRec) (h0 : r0.unicodes.Nodup)
-    (hr : ∀ k r, f k = some r → r.unicodes.Nodup) : ∀ k r, upd f n (some r0) k = some r → r.unicodes.Nodup := by
-  intro k r hk
-  unfold upd at hk
-  split at hk
-  · simp at hk; subst hk; exact h0
-  · exact hr k r hk
+  by_cases e : k = n
+  · simp [e] at hk
+  · simp only [e, if_false] at hk
+    have hl' : AL.get? (AL.erase s.loaded n) k = none := hl
+    rw [AL.get?_erase_ne _ _ _ (fun x => e x.symm)] at hl'
+    exact h k x hk hl'
 
 /-! ### visibility -/
 
@@ -542,17 +845,33 @@ theorem wf_setLoaded {s : State} (h : WF s) (n : String) (r' : GRec) (u : Option
     · simp only [e, if_false] at hk
       exact h.cleanEq k r'' hk
 
+theorem scan_setLoaded {s : State} (h : ScanOK s) (n : String) (r' : GRec) (u : Option Cmap) :
+    ScanOK (setLoaded s n r' u) := by
+  intro k x hk hl
+  have hl' : AL.get? (AL.set s.loaded n (r', true)) k = none := hl
+  rw [AL.get?_set] at hl'
+  by_cases e : n = k
+  · simp [e] at hl'
+  · simp only [e, if_false] at hl'
+    rw [abs_setLoaded] at hk
+    have e' : ¬ k = n := fun x => e x.symm
+    simp only [e', if_false] at hk
+    exact h k x hk hl'
+
 theorem uniInv_upd_same_unicodes {f : String → Option GRec} {u : Option Cmap} (hu : UniInv f u) (n : String)
     (r r' : GRec) (hf : f n = some r) (hus : r'.unicodes = r.unicodes) : UniInv (upd f n (some r')) u := by
   intro m hm
   obtain ⟨h1, h2⟩ := hu m hm
-  refine ⟨h1, ?_⟩
-  intro c n'
-  rw [h2]
-  unfold upd
+  refine ⟨h1, fun c n' => ?_⟩
+  obtain ⟨ha, hb⟩ := h2 c n'
   by_cases e : n' = n
-  · subst e; simp [hf, hus]
-  · simp [e]
+  · subst e
+    have h3 := cnt_of_some hf c
+    have h4 := cnt_upd_some f n' r' c
+    rw [hus] at h4
+    omega
+  · have h3 := cnt_upd_ne f n n' (some r') c e
+    omega
 
 theorem upd_upd_same (f : String → Option GRec) (n : String) (v w : Option GRec) (k : String) :
     upd (upd f n v) n w k = upd f n w k := by
@@ -572,6 +891,35 @@ theorem uniInv_insert_after_forget {f : String → Option GRec} {u : Option Cmap
   have h2 := uniInv_add hu n r (by simp [upd])
   exact uniInv_congr (upd_upd_same f n none (some r)) h2
 
+/-- F108: the name of a glyph whose list has no repetition is listed once at most per code point, so removing it
+from the code points that list it removes it altogether -/
+theorem uniInv_purge {f : String → Option GRec} {u : Option Cmap} (hu : UniInv f u) (n : String) (r0 : GRec)
+    (hf : f n = some r0) (hn : r0.unicodes.Nodup) :
+    UniInv (upd f n none) (u.map (fun m => uniRemove m n (codesOf m n))) := by
+  intro m' hm'
+  cases u with
+  | none => simp at hm'
+  | some m =>
+    simp at hm'; subst hm'
+    obtain ⟨h1, h2⟩ := hu m rfl
+    obtain ⟨hw, hc⟩ := uniRemove_spec h1 n (codesOf m n)
+    refine ⟨hw, fun c n' => ?_⟩
+    rw [hc]
+    obtain ⟨ha, hb⟩ := h2 c n'
+    by_cases e : n' = n
+    · subst e
+      have h3 := cnt_of_some hf c
+      have h4 := cnt_upd_none f n' c
+      have h5 : r0.unicodes.count c ≤ 1 := List.nodup_iff_count.mp hn c
+      have h6 := count_codesOf m h1.keys n' c
+      simp only [if_true]
+      by_cases hm : n' ∈ namesAt m c
+      · rw [if_pos hm] at h6; omega
+      · have hz := List.count_eq_zero.mpr hm
+        rw [if_neg hm] at h6; omega
+    · have h3 := cnt_upd_ne f n n' none c e
+      simp only [e, if_false]; omega
+
 /-! ### the operations -/
 
 theorem delete_spec {s s' : State} {n : String} (h : Good s) (hd : deleteGlyph s n = .ok s')
@@ -582,11 +930,10 @@ theorem delete_spec {s s' : State} {n : String} (h : Good s) (hd : deleteGlyph s
     simp only [hu, Except.ok.injEq] at hd
     subst hd
     have habs := abs_dropGlyph h.wf n
-    refine ⟨⟨wf_dropGlyph h.wf n, ?_, ?_⟩, habs⟩
-    · unfold UniOK
-      have : (dropGlyph s n).uni = none := hu
-      rw [this]; exact uniInv_none _
-    · intro k r hk; rw [habs] at hk; exact recsOK_upd_none n h.recs k r hk
+    refine ⟨⟨wf_dropGlyph h.wf n, ?_, scan_dropGlyph h.wf h.scan n⟩, habs⟩
+    unfold UniOK
+    have : (dropGlyph s n).uni = none := hu
+    rw [this]; exact uniInv_none _
   | some m =>
     simp only [hu] at hd
     cases hg : getItem s n with
@@ -604,65 +951,66 @@ theorem delete_spec {s s' : State} {n : String} (h : Good s) (hd : deleteGlyph s
         split
         · rfl
         · rw [abs_forgetUni, hsame]
-      refine ⟨⟨wf_dropGlyph hwf n, ?_, ?_⟩, habs⟩
-      · unfold UniOK
-        apply uniInv_congr (fun k => (habs k).symm)
-        have : (dropGlyph (forgetUni s1 n r.unicodes) n).uni = s1.uni.map (fun m => uniRemove m n r.unicodes) := rfl
-        rw [this]
-        have hu1 : UniInv (abs s) s1.uni := uniInv_congr hsame hg1.uni
-        exact uniInv_remove hu1 n r hr
-      · intro k r' hk; rw [habs] at hk; exact recsOK_upd_none n h.recs k r' hk
+      refine ⟨⟨wf_dropGlyph hwf n, ?_, scan_dropGlyph hwf (scan_forgetUni hg1.scan n r.unicodes) n⟩, habs⟩
+      unfold UniOK
+      apply uniInv_congr (fun k => (habs k).symm)
+      have : (dropGlyph (forgetUni s1 n r.unicodes) n).uni = s1.uni.map (fun m => uniRemove m n r.unicodes) := rfl
+      rw [this]
+      have hu1 : UniInv (abs s) s1.uni := uniInv_congr hsame hg1.uni
+      exact uniInv_remove hu1 n r hr
 
-theorem new_spec {s s' : State} {n : String} (h : Good s) (hd : newGlyph s n = .ok s') :
-    Good s' ∧ ∀ k, abs s' k = upd (abs s) n (some {}) k := by
-  unfold newGlyph at hd
-  have hnodup : ({} : GRec).unicodes.Nodup := by simp
+/-- storing a glyph under a name, whatever the layer showed there before (the core of `newGlyph` and of a rename) -/
+theorem put_spec {s s' : State} {n : String} {r : GRec} (h : Good s) (hd : putGlyph s n r = .ok s') :
+    Good s' ∧ ∀ k, abs s' k = upd (abs s) n (some r) k := by
+  unfold putGlyph at hd
   by_cases hc : n ∈ visible s ∧ s.uni.isSome
   · rw [if_pos hc] at hd
     cases hg : getItem s n with
     | error e => simp [hg] at hd
     | ok p =>
-      obtain ⟨s1, r⟩ := p
+      obtain ⟨s1, r0⟩ := p
       simp only [hg, Except.ok.injEq] at hd
       subst hd
       obtain ⟨hg1, hsame, hr, _, _, _⟩ := getItem_spec h hg
-      have habs : ∀ k, abs (insertGlyph (forgetUni s1 n r.unicodes) n {} true) k = upd (abs s) n (some {}) k := by
+      have habs : ∀ k, abs (insertGlyph (forgetUni s1 n r0.unicodes) n r true) k = upd (abs s) n (some r) k := by
         intro k
         rw [abs_insertGlyph_upd]
         unfold upd
         split
         · rfl
         · rw [abs_forgetUni, hsame]
-      refine ⟨⟨wf_insertGlyph (wf_forgetUni hg1.wf n r.unicodes) n {} true (by simp), ?_, ?_⟩, habs⟩
-      · unfold UniOK
-        apply uniInv_congr (fun k => (habs k).symm)
-        rw [insertGlyph_uni]
-        have hu1 : UniInv (abs s) s1.uni := uniInv_congr hsame hg1.uni
-        exact uniInv_insert_after_forget (uniInv_remove hu1 n r hr) {}
-      · intro k r' hk; rw [habs] at hk; exact recsOK_upd_some n {} hnodup h.recs k r' hk
+      refine ⟨⟨wf_insertGlyph (wf_forgetUni hg1.wf n r0.unicodes) n r true (by simp), ?_,
+        scan_insertGlyph (scan_forgetUni hg1.scan n r0.unicodes) n r true⟩, habs⟩
+      unfold UniOK
+      apply uniInv_congr (fun k => (habs k).symm)
+      rw [insertGlyph_uni]
+      have hu1 : UniInv (abs s) s1.uni := uniInv_congr hsame hg1.uni
+      exact uniInv_insert_after_forget (uniInv_remove hu1 n r0 hr) r
   · rw [if_neg hc] at hd
     simp only [Except.ok.injEq] at hd
     subst hd
-    have habs := abs_insertGlyph_upd s n {} true
-    refine ⟨⟨wf_insertGlyph h.wf n {} true (by simp), ?_, ?_⟩, habs⟩
-    · unfold UniOK
-      apply uniInv_congr (fun k => (habs k).symm)
-      rw [insertGlyph_uni]
-      cases hu : s.uni with
-      | none => exact uniInv_none _
-      | some m =>
-        have hnv : abs s n = none := by
-          have : ¬ n ∈ visible s := fun hv => hc ⟨hv, by simp [hu]⟩
-          rw [mem_visible_iff h.wf] at this
-          cases hh : abs s n with
-          | none => rfl
-          | some x => simp [hh] at this
-        have := uniInv_add h.uni n {} hnv
-        rw [hu] at this
-        exact this
-    · intro k r' hk; rw [habs] at hk; exact recsOK_upd_some n {} hnodup h.recs k r' hk
+    have habs := abs_insertGlyph_upd s n r true
+    refine ⟨⟨wf_insertGlyph h.wf n r true (by simp), ?_, scan_insertGlyph h.scan n r true⟩, habs⟩
+    unfold UniOK
+    apply uniInv_congr (fun k => (habs k).symm)
+    rw [insertGlyph_uni]
+    cases hu : s.uni with
+    | none => exact uniInv_none _
+    | some m =>
+      have hnv : abs s n = none := by
+        have : ¬ n ∈ visible s := fun hv => hc ⟨hv, by simp [hu]⟩
+        rw [mem_visible_iff h.wf] at this
+        cases hh : abs s n with
+        | none => rfl
+        | some x => simp [hh] at this
+      have := uniInv_add h.uni n r hnv
+      rw [hu] at this
+      exact this
 
-theorem setUnicodes_spec {s s' : State} {n : String} {us : List Nat} (h : Good s) (hus : us.Nodup)
+theorem new_spec {s s' : State} {n : String} (h : Good s) (hd : newGlyph s n = .ok s') :
+    Good s' ∧ ∀ k, abs s' k = upd (abs s) n (some {}) k := put_spec h hd
+
+theorem setUnicodes_spec {s s' : State} {n : String} {us : List Nat} (h : Good s)
     (hd : setUnicodes s n us = .ok s') :
     Good s' ∧ ∃ r, abs s n = some r ∧ ∀ k, abs s' k = upd (abs s) n (some (withUnicodes r us)) k := by
   unfold setUnicodes at hd
@@ -694,13 +1042,11 @@ theorem setUnicodes_spec {s s' : State} {n : String} {us : List Nat} (h : Good s
         split
         · rfl
         · exact hsame k
-      refine ⟨⟨wf_setLoaded hg1.wf n _ _ hl, ?_, ?_⟩, r, hr, habs⟩
-      · unfold UniOK
-        apply uniInv_congr (fun k => (habs k).symm)
-        have hu1 : UniInv (abs s) s1.uni := uniInv_congr hsame hg1.uni
-        exact uniInv_replace hu1 n r (withUnicodes r us) hr
-      · intro k r' hk; rw [habs] at hk
-        exact recsOK_upd_some n _ hus h.recs k r' hk
+      refine ⟨⟨wf_setLoaded hg1.wf n _ _ hl, ?_, scan_setLoaded hg1.scan n _ _⟩, r, hr, habs⟩
+      unfold UniOK
+      apply uniInv_congr (fun k => (habs k).symm)
+      have hu1 : UniInv (abs s) s1.uni := uniInv_congr hsame hg1.uni
+      exact uniInv_replace hu1 n r (withUnicodes r us) hr
 
 theorem edit_spec {s s' : State} {n : String} {c : List String} {i : Option String} {ol ofast : Bool}
     (h : Good s) (hd : editRest s n c i ol ofast = .ok s') :
@@ -722,13 +1068,11 @@ theorem edit_spec {s s' : State} {n : String} {c : List String} {i : Option Stri
       split
       · rfl
       · exact hsame k
-    refine ⟨⟨wf_setLoaded hg1.wf n _ s1.uni hl, ?_, ?_⟩, r, hr, habs⟩
-    · unfold UniOK
-      apply uniInv_congr (fun k => (habs k).symm)
-      have hu1 : UniInv (abs s) s1.uni := uniInv_congr hsame hg1.uni
-      exact uniInv_upd_same_unicodes hu1 n r _ hr rfl
-    · intro k r' hk; rw [habs] at hk
-      exact recsOK_upd_some n (withRest r c i ol ofast) (h.recs n r hr) h.recs k r' hk
+    refine ⟨⟨wf_setLoaded hg1.wf n _ s1.uni hl, ?_, scan_setLoaded hg1.scan n _ _⟩, r, hr, habs⟩
+    unfold UniOK
+    apply uniInv_congr (fun k => (habs k).symm)
+    have hu1 : UniInv (abs s) s1.uni := uniInv_congr hsame hg1.uni
+    exact uniInv_upd_same_unicodes hu1 n r _ hr rfl
 
 theorem touch_spec {s s' : State} {n : String} (h : Good s) (hd : touch s n = .ok s') :
     Good s' ∧ (abs s n).isSome ∧ ∀ k, abs s' k = abs s k := by
@@ -746,13 +1090,17 @@ theorem touch_spec {s s' : State} {n : String} (h : Good s) (hd : touch s n = .o
       split
       · rename_i e; subst e; exact hr.symm
       · exact hsame k
-    refine ⟨⟨wf_setLoaded hg1.wf n _ s1.uni hl, ?_, recsOK_congr habs h.recs⟩, by rw [hr]; rfl, habs⟩
+    refine ⟨⟨wf_setLoaded hg1.wf n _ s1.uni hl, ?_, scan_setLoaded hg1.scan n _ _⟩, by rw [hr]; rfl, habs⟩
     unfold UniOK
     apply uniInv_congr (fun k => (habs k).symm)
     exact uniInv_congr hsame hg1.uni
 
-theorem rename_spec {s s' : State} {o n : String} (h : Good s) (hdom : o = n ∨ abs s n = none)
-    (hd : rename s o n = .ok s') :
+theorem good_forgetUni_absent {s : State} (h : Good s) (n : String) (us : List Nat) (hn : abs s n = none) :
+    Good (forgetUni s n us) :=
+  ⟨wf_forgetUni h.wf n us, uniInv_remove_absent h.uni n us hn, scan_forgetUni h.scan n us⟩
+
+/-- a rename, onto a free name or onto a name that is present (whose glyph is replaced) -/
+theorem rename_spec {s s' : State} {o n : String} (h : Good s) (hd : rename s o n = .ok s') :
     Good s' ∧ ∃ r, abs s o = some r ∧
       ∀ k, abs s' k = (if o = n then abs s k else upd (upd (abs s) o none) n (some r) k) := by
   unfold rename at hd
@@ -768,62 +1116,38 @@ theorem rename_spec {s s' : State} {o n : String} (h : Good s) (hdom : o = n ∨
       subst hd
       exact ⟨hg1, r, hr, fun k => by simp [he, hsame]⟩
     · rw [if_neg he] at hd
-      have hnone : abs s n = none := by
-        rcases hdom with x | x
-        · exact absurd x he
-        · exact x
       cases hdel : deleteGlyph s1 o with
       | error e => simp [hdel] at hd
       | ok s2 =>
-        simp only [hdel, Except.ok.injEq] at hd
-        subst hd
+        simp only [hdel] at hd
         have hv : (abs s1 o).isSome := by rw [hsame, hr]; rfl
         obtain ⟨hg2, habs2⟩ := delete_spec hg1 hdel hv
         have ho2 : abs s2 o = none := by rw [habs2]; simp [upd]
-        have hn2 : abs s2 n = none := by
-          rw [habs2]; unfold upd
-          have : ¬ n = o := fun x => he x.symm
-          simp [this, hsame, hnone]
-        have habs : ∀ k, abs (insertGlyph (forgetUni s2 o r.unicodes) n r true) k =
-            upd (upd (abs s) o none) n (some r) k := by
-          intro k
-          rw [abs_insertGlyph_upd]
+        have hg3 := good_forgetUni_absent hg2 o r.unicodes ho2
+        obtain ⟨hg4, habs4⟩ := put_spec hg3 hd
+        refine ⟨hg4, r, hr, ?_⟩
+        intro k
+        simp only [he, if_false]
+        rw [habs4]
+        unfold upd
+        by_cases e1 : k = n
+        · simp [e1]
+        · simp only [e1, if_false]
+          rw [abs_forgetUni, habs2]
           unfold upd
-          by_cases e1 : k = n
-          · simp [e1]
-          · simp only [e1, if_false]
-            rw [abs_forgetUni, habs2]
-            unfold upd
-            split
-            · rfl
-            · exact hsame k
-        refine ⟨⟨wf_insertGlyph (wf_forgetUni hg2.wf o r.unicodes) n r true (by simp), ?_, ?_⟩, r, hr, ?_⟩
-        · unfold UniOK
-          apply uniInv_congr (fun k => (habs k).symm)
-          rw [insertGlyph_uni]
-          have hu2 : UniInv (abs s2) (forgetUni s2 o r.unicodes).uni :=
-            uniInv_remove_absent hg2.uni o r.unicodes ho2
-          have hu3 := uniInv_add hu2 n r hn2
-          apply uniInv_congr _ hu3
-          intro k
-          unfold upd
-          by_cases e1 : k = n
-          · simp [e1]
-          · simp only [e1, if_false]
-            rw [habs2]
-            unfold upd
-            split
-            · rfl
-            · exact hsame k
-        · intro k r' hk; rw [habs] at hk
-          exact recsOK_upd_some n r (h.recs o r hr) (recsOK_upd_none o h.recs) k r' hk
-        · intro k; simp only [he, if_false]; exact habs k
+          split
+          · rfl
+          · exact hsame k
 
 theorem grec_eta (r : GRec) :
     withRest (withUnicodes {} r.unicodes) r.comps r.image r.outlineLoaded r.outlineFast = r := by
   cases r; rfl
 
-theorem insert_spec {s s' : State} {n : String} {r : GRec} (h : Good s) (hus : r.unicodes.Nodup)
+theorem grec_eta' (r0 r : GRec) :
+    withRest (withUnicodes r0 r.unicodes) r.comps r.image r.outlineLoaded r.outlineFast = r := by
+  cases r; rfl
+
+theorem insert_spec {s s' : State} {n : String} {r : GRec} (h : Good s)
     (hd : insert s n r = .ok s') : Good s' ∧ ∀ k, abs s' k = upd (abs s) n (some r) k := by
   unfold insert at hd
   cases h1 : newGlyph s n with
@@ -835,15 +1159,13 @@ theorem insert_spec {s s' : State} {n : String} {r : GRec} (h : Good s) (hus : r
     | error e => simp [h2] at hd
     | ok s2 =>
       simp only [h2] at hd
-      obtain ⟨hg2, r2, hr2, ha2⟩ := setUnicodes_spec hg1 hus h2
+      obtain ⟨hg2, r2, hr2, ha2⟩ := setUnicodes_spec hg1 h2
       obtain ⟨hg3, r3, hr3, ha3⟩ := edit_spec hg2 hd
       refine ⟨hg3, ?_⟩
-      have e2 : r2 = {} := by
-        rw [ha1] at hr2; simp [upd] at hr2; exact hr2.symm
-      have e3 : r3 = withUnicodes {} r.unicodes := by
-        rw [ha2] at hr3; simp [upd] at hr3; rw [← hr3, e2]
+      have e3 : r3 = withUnicodes r2 r.unicodes := by
+        rw [ha2] at hr3; simp [upd] at hr3; exact hr3.symm
       intro k
-      rw [ha3, e3, grec_eta]
+      rw [ha3, e3, grec_eta']
       unfold upd
       split
       · rfl
@@ -952,41 +1274,98 @@ theorem wf_save {s : State} (h : WF s) : WF (save s) := by
       simp [hg] at hk
       rw [abs_of_loaded hg, hk]
 
+theorem scan_save {s : State} (hw : WF s) (h : ScanOK s) : ScanOK (save s) := by
+  intro k x hk hl
+  rw [abs_save hw] at hk
+  have hl' : AL.get? (save s).loaded k = (AL.get? s.loaded k).map (fun v => (v.1, false)) := by
+    unfold save; exact AL.get?_map_val (fun v : GRec × Bool => (v.1, false)) s.loaded k
+  rw [hl'] at hl
+  cases hg : AL.get? s.loaded k with
+  | none => exact h k x hk hg
+  | some p => simp [hg] at hl
+
 /-! ### first access to the unicode map -/
 
-theorem mem_foldl_uniAdd {α : Type} (l : List (String × α)) (skip : String → Prop) [DecidablePred skip]
-    (us : α → List Nat) (m0 : Cmap) (n' : String) (c : Nat) :
-    n' ∈ namesAt (l.foldl (fun m p => if skip p.1 then m else uniAdd m p.1 (us p.2)) m0) c ↔
-      n' ∈ namesAt m0 c ∨ ∃ p ∈ l, p.1 = n' ∧ ¬ skip p.1 ∧ c ∈ us p.2 := by
+/-- the loaded part of the lazy constructor: the name of every glyph that is not skipped is appended once per
+element of its list -/
+theorem count_foldl_append {α : Type} (l : List (String × α)) (hk : (AL.keys l).Nodup) (skip : String → Prop)
+    [DecidablePred skip] (us : α → List Nat) (m0 : Cmap) (h0 : MapWF m0) :
+    MapWF (l.foldl (fun m p => if skip p.1 then m else uniAppend m p.1 (us p.2)) m0) ∧
+    ∀ c n', (namesAt (l.foldl (fun m p => if skip p.1 then m else uniAppend m p.1 (us p.2)) m0) c).count n' =
+      (namesAt m0 c).count n' +
+        match AL.get? l n' with
+        | some a => if skip n' then 0 else (us a).count c
+        | none => 0 := by
   induction l generalizing m0 with
-  | nil => simp
+  | nil => exact ⟨h0, fun c n' => by simp⟩
   | cons p rest ih =>
+    obtain ⟨k, a⟩ := p
+    simp only [AL.keys, List.map_cons, List.nodup_cons] at hk
+    have hk2 : (AL.keys rest).Nodup := by simpa [AL.keys] using hk.2
     simp only [List.foldl_cons]
-    rw [ih]
-    by_cases hs : skip p.1
-    · simp only [hs, if_true, List.mem_cons, exists_eq_or_imp, not_true_eq_false, false_and, and_false, false_or]
-    · simp only [hs, if_false, mem_uniAdd, List.mem_cons, exists_eq_or_imp, not_false_eq_true, true_and]
-      constructor
-      · rintro ((h | ⟨h1, h2⟩) | h)
-        · exact Or.inl h
-        · exact Or.inr (Or.inl ⟨h1.symm, h2⟩)
-        · exact Or.inr (Or.inr h)
-      · rintro (h | ⟨h1, h2⟩ | h)
-        · exact Or.inl (Or.inl h)
-        · exact Or.inl (Or.inr ⟨h1.symm, h2⟩)
-        · exact Or.inr h
+    by_cases hs : skip k
+    · simp only [hs, if_true]
+      obtain ⟨h1, h2⟩ := ih hk2 m0 h0
+      refine ⟨h1, fun c n' => ?_⟩
+      rw [h2]
+      by_cases e : k = n'
+      · subst e
+        have : AL.get? rest k = none := AL.get?_eq_none_of_not_mem (by simpa [AL.keys] using hk.1)
+        simp [this, hs]
+      · simp [e]
+    · simp only [hs, if_false]
+      obtain ⟨hw, hc⟩ := uniAppend_spec h0 k (us a)
+      obtain ⟨h1, h2⟩ := ih hk2 _ hw
+      refine ⟨h1, fun c n' => ?_⟩
+      rw [h2, hc]
+      by_cases e : k = n'
+      · subst e
+        have : AL.get? rest k = none := AL.get?_eq_none_of_not_mem (by simpa [AL.keys] using hk.1)
+        simp [this, hs]
+      · have e' : ¬ n' = k := fun x => e x.symm
+        simp [e, e']
 
-theorem uniWF_foldl_uniAdd {α : Type} (l : List (String × α)) (skip : String → Prop) [DecidablePred skip]
-    (us : α → List Nat) (m0 : Cmap) (h : UniWF m0) :
-    UniWF (l.foldl (fun m p => if skip p.1 then m else uniAdd m p.1 (us p.2)) m0) := by
+/-- the scanned part: the name of every glyph that is not skipped is added (guarded) under each of its code points -/
+theorem count_foldl_add {α : Type} (l : List (String × α)) (hk : (AL.keys l).Nodup) (skip : String → Prop)
+    [DecidablePred skip] (us : α → List Nat) (m0 : Cmap) (h0 : MapWF m0) :
+    MapWF (l.foldl (fun m p => if skip p.1 then m else uniAdd m p.1 (us p.2)) m0) ∧
+    ∀ c n', (namesAt (l.foldl (fun m p => if skip p.1 then m else uniAdd m p.1 (us p.2)) m0) c).count n' =
+        match AL.get? l n' with
+        | some a => if ¬ skip n' ∧ c ∈ us a then max 1 ((namesAt m0 c).count n') else (namesAt m0 c).count n'
+        | none => (namesAt m0 c).count n' := by
   induction l generalizing m0 with
-  | nil => exact h
+  | nil => exact ⟨h0, fun c n' => by simp⟩
   | cons p rest ih =>
+    obtain ⟨k, a⟩ := p
+    simp only [AL.keys, List.map_cons, List.nodup_cons] at hk
+    have hk2 : (AL.keys rest).Nodup := by simpa [AL.keys] using hk.2
     simp only [List.foldl_cons]
-    apply ih
-    split
-    · exact h
-    · exact uniWF_uniAdd h _ _
+    by_cases hs : skip k
+    · simp only [hs, if_true]
+      obtain ⟨h1, h2⟩ := ih hk2 m0 h0
+      refine ⟨h1, fun c n' => ?_⟩
+      rw [h2]
+      by_cases e : k = n'
+      · subst e
+        have : AL.get? rest k = none := AL.get?_eq_none_of_not_mem (by simpa [AL.keys] using hk.1)
+        simp [this, hs]
+      · simp [e]
+    · simp only [hs, if_false]
+      have hw := (uniAdd_spec h0 k (us a)).1
+      obtain ⟨h1, h2⟩ := ih hk2 _ hw
+      refine ⟨h1, fun c n' => ?_⟩
+      rw [h2]
+      by_cases e : k = n'
+      · subst e
+        have : AL.get? rest k = none := AL.get?_eq_none_of_not_mem (by simpa [AL.keys] using hk.1)
+        simp only [this, AL.get?_cons, if_true]
+        rw [count_uniAdd h0]
+        simp [hs]
+      · have e' : ¬ n' = k := fun x => e x.symm
+        simp only [AL.get?_cons, e, if_false]
+        have : ∀ c, (namesAt (uniAdd m0 k (us a)) c).count n' = (namesAt m0 c).count n' := by
+          intro c; rw [count_uniAdd h0]; simp [e']
+        simp only [this]
 
 theorem namesAt_nil (c : Nat) : namesAt [] c = [] := rfl
 
@@ -995,47 +1374,45 @@ theorem buildUni_spec {s : State} (h : WF s) : UniInv (abs s) (some (buildUni s)
   simp only [Option.some.injEq] at hm
   subst hm
   unfold buildUni
-  have hw1 := uniWF_foldl_uniAdd s.loaded (fun x => x ∈ s.sched) (fun r : GRec × Bool => r.1.unicodes) [] uniWF_nil
-  have hw2 := uniWF_foldl_uniAdd s.disk (fun x => isLoaded s x ∨ x ∈ s.sched) (fun r : GRec => r.unicodes) _ hw1
-  refine ⟨hw2, ?_⟩
-  intro c n
+  obtain ⟨hw1, hc1⟩ := count_foldl_append s.loaded h.loadedKeys (fun x => x ∈ s.sched)
+    (fun r : GRec × Bool => r.1.unicodes) [] mapWF_nil
+  obtain ⟨hw2, hc2⟩ := count_foldl_add s.disk h.diskKeys (fun x => isLoaded s x ∨ x ∈ s.sched)
+    (fun r : GRec => r.unicodes) _ hw1
+  refine ⟨hw2, fun c n => ?_⟩
   simp only
-  rw [mem_foldl_uniAdd s.disk (fun x => isLoaded s x ∨ x ∈ s.sched) (fun r => r.unicodes),
-      mem_foldl_uniAdd s.loaded (fun x => x ∈ s.sched) (fun r => r.1.unicodes), namesAt_nil]
-  simp only [List.not_mem_nil, false_or]
-  constructor
-  · rintro (⟨p, hp, hn, hs, hc⟩ | ⟨p, hp, hn, hs, hc⟩)
-    · obtain ⟨k, v⟩ := p
-      simp only at hn hs hc
-      subst hn
-      have := AL.get?_of_mem_nodup h.loadedKeys hp
-      exact ⟨v.1, abs_of_loaded this, hc⟩
-    · obtain ⟨k, v⟩ := p
-      simp only at hn hs hc
-      subst hn
-      simp only [not_or] at hs
-      have hnl : AL.get? s.loaded k = none := (AL.contains_false_iff _ _).mp (by simpa [isLoaded] using hs.1)
-      have := AL.get?_of_mem_nodup h.diskKeys hp
-      refine ⟨v, ?_, hc⟩
-      rw [abs_of_not_loaded hnl]; simp [hs.2, this]
-  · rintro ⟨r, hr, hc⟩
-    cases hl : AL.get? s.loaded n with
-    | some p =>
-      left
-      rw [abs_of_loaded hl] at hr
-      simp only [Option.some.injEq] at hr
-      refine ⟨(n, p), AL.mem_of_get? hl, rfl, ?_, by simpa [hr] using hc⟩
+  rw [hc2, hc1, namesAt_nil]
+  simp only [List.count_nil, Nat.zero_add]
+  cases hl : AL.get? s.loaded n with
+  | some p =>
+    have hns : n ∉ s.sched := by
       intro hs; rw [h.schedNotLoaded n hs] at hl; simp at hl
-    | none =>
-      right
-      rw [abs_of_not_loaded hl] at hr
-      by_cases hs : n ∈ s.sched
-      · simp [hs] at hr
-      · simp only [hs, if_false] at hr
-        refine ⟨(n, r), AL.mem_of_get? hr, rfl, ?_, hc⟩
-        simp only [not_or]
-        refine ⟨?_, hs⟩
-        simp [isLoaded, AL.contains, hl]
+    have hil : isLoaded s n = true := by simp [isLoaded, AL.contains, hl]
+    have hcnt : cnt (abs s) n c = p.1.unicodes.count c := cnt_of_some (abs_of_loaded hl) c
+    rw [hcnt]
+    cases hd : AL.get? s.disk n with
+    | none => simp [hns]
+    | some r => simp [hns, hil]
+  | none =>
+    have hil : ¬ isLoaded s n = true := by simp [isLoaded, AL.contains, hl]
+    by_cases hs : n ∈ s.sched
+    · have hcnt : cnt (abs s) n c = 0 := cnt_of_none (by rw [abs_of_not_loaded hl]; simp [hs]) c
+      rw [hcnt]
+      cases hd : AL.get? s.disk n with
+      | none => simp
+      | some r => simp [hs]
+    · cases hd : AL.get? s.disk n with
+      | none =>
+        have hcnt : cnt (abs s) n c = 0 := cnt_of_none (by rw [abs_of_not_loaded hl]; simp [hs, hd]) c
+        rw [hcnt]; simp
+      | some r =>
+        have hcnt : cnt (abs s) n c = r.unicodes.count c :=
+          cnt_of_some (by rw [abs_of_not_loaded hl]; simp [hs, hd]) c
+        rw [hcnt]
+        by_cases hc : c ∈ r.unicodes
+        · have := List.count_pos_iff.mpr hc
+          simp [hs, hil, hc] <;> omega
+        · have := List.count_eq_zero.mpr hc
+          simp [hs, hil, hc, this]
 
 theorem touchUni_spec {s : State} (h : Good s) : Good (touchUni s) ∧ ∀ k, abs (touchUni s) k = abs s k := by
   unfold touchUni
@@ -1047,7 +1424,7 @@ theorem touchUni_spec {s : State} (h : Good s) : Good (touchUni s) ∧ ∀ k, ab
         h.wf.schedNotLoaded, h.wf.keysIff, h.wf.cleanEq⟩
     · show UniInv (abs s) (some (buildUni s))
       exact buildUni_spec h.wf
-    · exact h.recs
+    · exact fun n r => h.scan n r
 
 /-! ### queries as functions of the abstract content -/
 
@@ -1095,6 +1472,276 @@ theorem imageReferences_eq (s : State) :
   unfold imageReferences visRecs
   simp [List.filterMap_append, List.filterMap_map, Function.comp_def]
 
+
+
+/-! ### reloading a glyph whose file another program rewrote -/
+
+theorem not_sched_of_unloaded_visible {s : State} {n : String} (hl : AL.get? s.loaded n = none)
+    (hv : (abs s n).isSome) : n ∉ s.sched := by
+  intro hs
+  rw [abs_of_not_loaded hl] at hv
+  simp [hs] at hv
+
+theorem wf_setDisk_unloaded {s : State} (h : WF s) (n : String) (r : GRec) (hl : AL.get? s.loaded n = none)
+    (hv : (abs s n).isSome) :
+    WF { s with disk := AL.set s.disk n r } ∧
+      ∀ k, abs { s with disk := AL.set s.disk n r } k = upd (abs s) n (some r) k := by
+  have hns := not_sched_of_unloaded_visible hl hv
+  have habs : ∀ k, abs { s with disk := AL.set s.disk n r } k = upd (abs s) n (some r) k := by
+    intro k
+    unfold abs upd
+    simp only
+    by_cases e : k = n
+    · subst e; simp [hl, hns]
+    · have e' : n ≠ k := fun x => e x.symm
+      simp only [e, if_false]
+      rw [AL.get?_set_ne _ _ _ _ e']
+  refine ⟨?_, habs⟩
+  constructor
+  · exact AL.nodup_keys_set _ _ _ h.diskKeys
+  · exact h.loadedKeys
+  · exact h.keysNodup
+  · exact h.schedNodup
+  · intro m hm
+    simp only [AL.contains_set, h.schedDisk m hm, Bool.or_true]
+  · exact h.schedNotLoaded
+  · intro k
+    rw [habs]
+    unfold upd
+    by_cases e : k = n
+    · subst e
+      simp only [if_true, Option.isSome_some, iff_true]
+      exact (h.keysIff k).mpr hv
+    · simp only [e, if_false]; exact h.keysIff k
+  · intro k r' hk
+    have hk' : AL.get? s.loaded k = some (r', false) := hk
+    have e : n ≠ k := by
+      intro e; subst e; rw [hl] at hk'; simp at hk'
+    simp only
+    rw [AL.get?_set_ne _ _ _ _ e]
+    exact h.cleanEq k r' hk'
+
+theorem wf_reloadLoaded {s : State} (h : WF s) (n : String) (r : GRec) (u : Option Cmap) {p : GRec × Bool}
+    (hl : AL.get? s.loaded n = some p) :
+    WF { s with disk := AL.set s.disk n r, loaded := AL.set s.loaded n (r, false), uni := u } ∧
+      ∀ k, abs { s with disk := AL.set s.disk n r, loaded := AL.set s.loaded n (r, false), uni := u } k =
+        upd (abs s) n (some r) k := by
+  have hns : n ∉ s.sched := by
+    intro hs; rw [h.schedNotLoaded n hs] at hl; simp at hl
+  have habs : ∀ k, abs { s with disk := AL.set s.disk n r, loaded := AL.set s.loaded n (r, false), uni := u } k =
+      upd (abs s) n (some r) k := by
+    intro k
+    unfold abs upd
+    simp only
+    by_cases e : k = n
+    · subst e; simp
+    · have e' : n ≠ k := fun x => e x.symm
+      simp only [e, if_false]
+      rw [AL.get?_set_ne _ _ _ _ e', AL.get?_set_ne _ _ _ _ e']
+  refine ⟨?_, habs⟩
+  constructor
+  · exact AL.nodup_keys_set _ _ _ h.diskKeys
+  · exact AL.nodup_keys_set _ _ _ h.loadedKeys
+  · exact h.keysNodup
+  · exact h.schedNodup
+  · intro m hm
+    simp only [AL.contains_set, h.schedDisk m hm, Bool.or_true]
+  · intro m hm
+    have e : n ≠ m := by intro e; subst e; exact hns hm
+    simp only
+    rw [AL.get?_set_ne _ _ _ _ e]
+    exact h.schedNotLoaded m hm
+  · intro k
+    rw [habs]
+    unfold upd
+    by_cases e : k = n
+    · subst e
+      simp only [if_true, Option.isSome_some, iff_true]
+      exact (h.keysIff k).mpr (by rw [abs_of_loaded hl]; rfl)
+    · simp only [e, if_false]; exact h.keysIff k
+  · intro k r' hk
+    simp only at hk ⊢
+    rw [AL.get?_set] at hk ⊢
+    by_cases e : n = k
+    · simp only [e, if_true, Option.some.injEq, Prod.mk.injEq, and_true] at hk ⊢
+      exact hk
+    · simp only [e, if_false] at hk ⊢
+      exact h.cleanEq k r' hk
+
+theorem reload_spec {s s' : State} {n : String} {r : GRec} (h : Good s) (hr : r.unicodes.Nodup)
+    (hd : reload s n r = .ok s') :
+    Good s' ∧ (abs s n).isSome ∧ ∀ k, abs s' k = upd (abs s) n (some r) k := by
+  unfold reload at hd
+  by_cases hv : n ∉ visible s
+  · rw [if_pos hv] at hd; simp at hd
+  · rw [if_neg hv] at hd
+    have hv' : (abs s n).isSome := (mem_visible_iff h.wf n).mp (by simpa using hv)
+    refine ⟨?_, hv', ?_⟩ <;> by_cases hod : onDisk s n = true
+    all_goals first | rw [if_pos hod] at hd | rw [if_neg hod] at hd
+    all_goals try simp only at hd
+    · -- the file is rewritten and read again
+      cases hl : AL.get? s.loaded n with
+      | some p =>
+        obtain ⟨r0, d0⟩ := p
+        simp only [hl, Except.ok.injEq] at hd
+        subst hd
+        obtain ⟨hw, habs⟩ := wf_reloadLoaded h.wf n r
+          (s.uni.map (fun m => uniAdd (uniRemove m n r0.unicodes) n r.unicodes)) hl
+        refine ⟨hw, ?_, ?_⟩
+        · unfold UniOK
+          apply uniInv_congr (fun k => (habs k).symm)
+          exact uniInv_replace h.uni n r0 r (abs_of_loaded hl)
+        · intro k x hk hlk
+          have hlk' : AL.get? (AL.set s.loaded n (r, false)) k = none := hlk
+          rw [AL.get?_set] at hlk'
+          by_cases e : n = k
+          · simp [e] at hlk'
+          · simp only [e, if_false] at hlk'
+            rw [habs] at hk
+            have e' : ¬ k = n := fun x => e x.symm
+            simp only [upd, e', if_false] at hk
+            exact h.scan k x hk hlk'
+      | none =>
+        simp only [hl, Except.ok.injEq] at hd
+        subst hd
+        obtain ⟨hw0, habs0⟩ := wf_setDisk_unloaded h.wf n r hl hv'
+        have hdisk : AL.get? (AL.set s.disk n r) n = some r := AL.get?_set_self _ _ _
+        have hw1 := wf_insertGlyph hw0 n r false (fun _ => hdisk)
+        obtain ⟨r0, hr0⟩ : ∃ r0, abs s n = some r0 := by
+          cases hh : abs s n with
+          | none => simp [hh] at hv'
+          | some x => exact ⟨x, rfl⟩
+        have habs : ∀ k, abs (insertGlyph { s with disk := AL.set s.disk n r } n r false) k =
+            upd (abs s) n (some r) k := by
+          intro k
+          rw [abs_insertGlyph_upd]
+          unfold upd
+          split
+          · rfl
+          · rename_i e; rw [habs0]; simp [upd, e]
+        refine ⟨wf_withUni (wf_withUni hw1 _) _, ?_, ?_⟩
+        · show UniInv _ (s.uni.map (fun m => uniAdd (uniRemove m n (codesOf m n)) n r.unicodes))
+          apply uniInv_congr (fun k => ((abs_withUni _ _ k).trans ((abs_withUni _ _ k).trans (habs k))).symm)
+          have h1 := uniInv_purge h.uni n r0 hr0 (h.scan n r0 hr0 hl)
+          have h2 := uniInv_insert_after_forget h1 r
+          simpa [Option.map_map, Function.comp_def] using h2
+        · apply scan_withUni
+          apply scan_withUni
+          intro k x hk hlk
+          have hlk' : AL.get? (AL.set s.loaded n (r, false)) k = none := hlk
+          rw [AL.get?_set] at hlk'
+          by_cases e : n = k
+          · simp [e] at hlk'
+          · simp only [e, if_false] at hlk'
+            rw [habs] at hk
+            have e' : ¬ k = n := fun x => e x.symm
+            simp only [upd, e', if_false] at hk
+            exact h.scan k x hk hlk'
+    · -- no file: the content is assigned in memory
+      cases h2 : setUnicodes s n r.unicodes with
+      | error e => simp [h2] at hd
+      | ok s2 =>
+        simp only [h2] at hd
+        obtain ⟨hg2, r2, hr2, ha2⟩ := setUnicodes_spec h h2
+        exact (edit_spec hg2 hd).1
+    · cases hl : AL.get? s.loaded n with
+      | some p =>
+        obtain ⟨r0, d0⟩ := p
+        simp only [hl, Except.ok.injEq] at hd
+        subst hd
+        exact (wf_reloadLoaded h.wf n r _ hl).2
+      | none =>
+        simp only [hl, Except.ok.injEq] at hd
+        subst hd
+        obtain ⟨hw0, habs0⟩ := wf_setDisk_unloaded h.wf n r hl hv'
+        intro k
+        show abs (insertGlyph { s with disk := AL.set s.disk n r } n r false) k = _
+        rw [abs_insertGlyph_upd]
+        unfold upd
+        split
+        · rfl
+        · rename_i e; rw [habs0]; simp [upd, e]
+    · cases h2 : setUnicodes s n r.unicodes with
+      | error e => simp [h2] at hd
+      | ok s2 =>
+        simp only [h2] at hd
+        obtain ⟨hg2, r2, hr2, ha2⟩ := setUnicodes_spec h h2
+        obtain ⟨hg3, r3, hr3, ha3⟩ := edit_spec hg2 hd
+        have e3 : r3 = withUnicodes r2 r.unicodes := by
+          rw [ha2] at hr3; simp [upd] at hr3; exact hr3.symm
+        intro k
+        rw [ha3, e3, grec_eta']
+        unfold upd
+        split
+        · rfl
+        · rw [ha2]; unfold upd; rename_i hk; simp only [hk, if_false]
+
+/-! ### look-ups -/
+
+theorem fwd_spec {s : State} (h : Good s) (n : String) :
+    Good (fwd s n).1 ∧ (∀ k, abs (fwd s n).1 k = abs s k) ∧ (fwd s n).2 = specFwd (abs s) n := by
+  unfold fwd specFwd
+  cases hg : getItem s n with
+  | ok p =>
+    obtain ⟨s1, r⟩ := p
+    obtain ⟨hg1, hsame, hr, _, _, _⟩ := getItem_spec h hg
+    simp only [hr, Option.bind_some]
+    exact ⟨hg1, hsame, trivial⟩
+  | error e =>
+    have := (getItem_error_iff h.wf).mp ⟨e, hg⟩
+    simp only [this, Option.bind_none]
+    exact ⟨h, by simp, by simp⟩
+
+/-- `pseudoUnicodeForGlyphName` as a function of the content -/
+def specPseudo (f : String → Option GRec) (n : String) : Option Nat :=
+  match specFwd f n with
+  | some v => some v
+  | none => (baseName n).bind (specFwd f)
+
+theorem pseudo_spec {s : State} (h : Good s) (n : String) :
+    Good (pseudo s n).1 ∧ (∀ k, abs (pseudo s n).1 k = abs s k) ∧ (pseudo s n).2 = specPseudo (abs s) n := by
+  obtain ⟨h1, h2, h3⟩ := fwd_spec h n
+  unfold pseudo specPseudo
+  rw [← h3]
+  cases hf : fwd s n with
+  | mk s1 v =>
+    rw [hf] at h1 h2
+    simp only at h1 h2
+    cases v with
+    | some v => exact ⟨h1, h2, rfl⟩
+    | none =>
+      simp only
+      cases hb : baseName n with
+      | none => exact ⟨h1, h2, rfl⟩
+      | some b =>
+        obtain ⟨h4, h5, h6⟩ := fwd_spec h1 b
+        refine ⟨h4, fun k => (h5 k).trans (h2 k), ?_⟩
+        simp only [Option.bind_some]
+        rw [h6]
+        have : abs s1 = abs s := funext h2
+        rw [this]
+
+/-- no stale names, none missing — and the duplicate-free reading -/
+theorem uniInv_nodup {f : String → Option GRec} {u : Option Cmap} {m : Cmap} (hu : UniInv f u) (hm : u = some m)
+    (hf : ∀ n r, f n = some r → r.unicodes.Nodup) (c : Nat) : (namesAt m c).Nodup := by
+  rw [List.nodup_iff_count]
+  intro n
+  obtain ⟨_, h⟩ := hu m hm
+  have h1 := (h c n).1
+  have : cnt f n c ≤ 1 := by
+    unfold cnt
+    cases hn : f n with
+    | none => simp
+    | some r => exact List.nodup_iff_count.mp (hf n r hn) c
+  omega
+
+theorem namesAt_ne_nil_iff {m : Cmap} (hw : MapWF m) (c : Nat) : namesAt m c ≠ [] ↔ AL.contains m c = true := by
+  unfold namesAt AL.contains
+  cases hg : AL.get? m c with
+  | none => simp
+  | some l => simpa using hw.nonempty _ (AL.mem_of_get? hg)
+
+
 /-! ### operations never fail on visible glyphs; refinement of one step -/
 
 theorem getItem_ok {s : State} {n : String} (h : WF s) (hv : (abs s n).isSome) :
@@ -1115,8 +1762,8 @@ theorem deleteGlyph_ok {s : State} {n : String} (h : WF s) (hv : (abs s n).isSom
     simp only [hp]
     exact ⟨_, rfl⟩
 
-theorem newGlyph_ok {s : State} {n : String} (h : WF s) : ∃ s', newGlyph s n = .ok s' := by
-  unfold newGlyph
+theorem putGlyph_ok {s : State} {n : String} (r : GRec) (h : WF s) : ∃ s', putGlyph s n r = .ok s' := by
+  unfold putGlyph
   split
   · rename_i hc
     obtain ⟨p, hp⟩ := getItem_ok h ((mem_visible_iff h n).mp hc.1)
@@ -1124,11 +1771,48 @@ theorem newGlyph_ok {s : State} {n : String} (h : WF s) : ∃ s', newGlyph s n =
     exact ⟨_, rfl⟩
   · exact ⟨_, rfl⟩
 
+theorem newGlyph_ok {s : State} {n : String} (h : WF s) : ∃ s', newGlyph s n = .ok s' := putGlyph_ok {} h
+
+theorem setUnicodes_ok {s : State} {n : String} (us : List Nat) (h : WF s) (hv : (abs s n).isSome) :
+    ∃ s', setUnicodes s n us = .ok s' := by
+  unfold setUnicodes
+  obtain ⟨p, hp⟩ := getItem_ok h hv
+  simp only [hp]
+  split <;> exact ⟨_, rfl⟩
+
+theorem editRest_ok {s : State} {n : String} (c : List String) (i : Option String) (ol ofast : Bool) (h : WF s)
+    (hv : (abs s n).isSome) : ∃ s', editRest s n c i ol ofast = .ok s' := by
+  unfold editRest
+  obtain ⟨p, hp⟩ := getItem_ok h hv
+  simp only [hp]
+  exact ⟨_, rfl⟩
+
 theorem ptwise_eq_of_upd {f g : String → Option GRec} (h : ∀ k, f k = g k) (n : String) (v : Option GRec) (k : String) :
     upd f n v k = upd g n v k := by
   unfold upd; split
   · rfl
   · exact h k
+
+theorem setUnicodes_refines {s : State} (n : String) (us : List Nat) (h : Good s) :
+    Good (match setUnicodes s n us with | .ok s' => s' | .error _ => s) ∧
+      ∀ k, abs (match setUnicodes s n us with | .ok s' => s' | .error _ => s) k =
+        ((match abs s n with
+          | none => none
+          | some r => some (upd (abs s) n (some (withUnicodes r us)))).getD (abs s)) k := by
+  cases hr : setUnicodes s n us with
+  | ok s' =>
+    obtain ⟨hg1, r, hrn, ha⟩ := setUnicodes_spec h hr
+    simp [hrn, hg1, ha]
+  | error e =>
+    unfold setUnicodes at hr
+    cases hg : getItem s n with
+    | error e2 =>
+      have := (getItem_error_iff h.wf).mp ⟨e2, hg⟩
+      simp [this, h]
+    | ok p =>
+      exfalso
+      simp only [hg] at hr
+      split at hr <;> simp at hr
 
 theorem step_refines {s : State} (op : Op) (h : Good s) (hop : OpOK (abs s) op) :
     Good (stepTotal s op) ∧ ∀ k, abs (stepTotal s op) k = specTotal (abs s) op k := by
@@ -1151,10 +1835,9 @@ theorem step_refines {s : State} (op : Op) (h : Good s) (hop : OpOK (abs s) op) 
     simp [hs', hg1, ha]
   | insert n r =>
     simp only [step, specStep]
-    simp only [OpOK] at hop
     cases hi : insert s n r with
     | ok s' =>
-      obtain ⟨hg1, ha⟩ := insert_spec h hop hi
+      obtain ⟨hg1, ha⟩ := insert_spec h hi
       simp [hg1, ha]
     | error e =>
       exfalso
@@ -1163,19 +1846,12 @@ theorem step_refines {s : State} (op : Op) (h : Good s) (hop : OpOK (abs s) op) 
       obtain ⟨hg1, ha1⟩ := new_spec h hs1
       simp only [hs1] at hi
       have hv1 : (abs s1 n).isSome := by rw [ha1]; simp [upd]
-      obtain ⟨p1, hp1⟩ := getItem_ok hg1.wf hv1
-      cases h2 : setUnicodes s1 n r.unicodes with
-      | error e2 =>
-        unfold setUnicodes at h2
-        simp only [hp1] at h2
-        split at h2 <;> simp at h2
-      | ok s2 =>
-        simp only [h2] at hi
-        obtain ⟨hg2, r2, hr2, ha2⟩ := setUnicodes_spec hg1 hop h2
-        have hv2 : (abs s2 n).isSome := by rw [ha2]; simp [upd]
-        obtain ⟨p2, hp2⟩ := getItem_ok hg2.wf hv2
-        unfold editRest at hi
-        simp [hp2] at hi
+      obtain ⟨s2, h2⟩ := setUnicodes_ok r.unicodes hg1.wf hv1
+      simp only [h2] at hi
+      obtain ⟨hg2, r2, hr2, ha2⟩ := setUnicodes_spec hg1 h2
+      have hv2 : (abs s2 n).isSome := by rw [ha2]; simp [upd]
+      obtain ⟨s3, h3⟩ := editRest_ok r.comps r.image r.outlineLoaded r.outlineFast hg2.wf hv2
+      simp [h3] at hi
   | delete n =>
     simp only [step, specStep]
     unfold delete
@@ -1188,10 +1864,9 @@ theorem step_refines {s : State} (op : Op) (h : Good s) (hop : OpOK (abs s) op) 
       simp [hv, hv', h]
   | rename o n =>
     simp only [step, specStep]
-    simp only [OpOK] at hop
     cases hr : rename s o n with
     | ok s' =>
-      obtain ⟨hg1, r, hro, ha⟩ := rename_spec h hop hr
+      obtain ⟨hg1, r, hro, ha⟩ := rename_spec h hr
       simp only [hro]
       refine ⟨hg1, ?_⟩
       intro k
@@ -1212,24 +1887,16 @@ theorem step_refines {s : State} (op : Op) (h : Good s) (hop : OpOK (abs s) op) 
         · simp at hr
         · have hv : (abs s1 o).isSome := by rw [hsame, hro]; rfl
           obtain ⟨s2, hs2⟩ := deleteGlyph_ok hg1.wf hv
-          simp [hs2] at hr
+          simp only [hs2] at hr
+          obtain ⟨hg2, _⟩ := delete_spec hg1 hs2 hv
+          obtain ⟨s3, hs3⟩ := putGlyph_ok (n := n) r (wf_forgetUni hg2.wf o r.unicodes)
+          simp [hs3] at hr
   | setUnicodes n us =>
     simp only [step, specStep]
-    simp only [OpOK] at hop
-    cases hr : setUnicodes s n us with
-    | ok s' =>
-      obtain ⟨hg1, r, hrn, ha⟩ := setUnicodes_spec h hop hr
-      simp [hrn, hg1, ha]
-    | error e =>
-      unfold setUnicodes at hr
-      cases hg : getItem s n with
-      | error e2 =>
-        have := (getItem_error_iff h.wf).mp ⟨e2, hg⟩
-        simp [this, h]
-      | ok p =>
-        exfalso
-        simp only [hg] at hr
-        split at hr <;> simp at hr
+    exact setUnicodes_refines n us h
+  | setUnicode n v =>
+    simp only [step, specStep, setUnicode]
+    exact setUnicodes_refines n v.toList h
   | edit n c i ol ofast =>
     simp only [step, specStep]
     cases hr : editRest s n c i ol ofast with
@@ -1260,9 +1927,42 @@ theorem step_refines {s : State} (op : Op) (h : Good s) (hop : OpOK (abs s) op) 
       | ok p =>
         exfalso
         simp [hg] at hr
+  | reload n r =>
+    simp only [step, specStep]
+    simp only [OpOK] at hop
+    cases hr : reload s n r with
+    | ok s' =>
+      obtain ⟨hg1, hv, ha⟩ := reload_spec h hop hr
+      simp [hv, hg1, ha]
+    | error e =>
+      by_cases hv : (abs s n).isSome
+      · exfalso
+        unfold reload at hr
+        have hvis : ¬ n ∉ visible s := by simpa using (mem_visible_iff h.wf n).mpr hv
+        rw [if_neg hvis] at hr
+        by_cases hod : onDisk s n = true
+        · rw [if_pos hod] at hr
+          simp only at hr
+          cases hl : AL.get? s.loaded n with
+          | some p => simp [hl] at hr
+          | none => simp [hl] at hr
+        · rw [if_neg hod] at hr
+          obtain ⟨s2, h2⟩ := setUnicodes_ok r.unicodes h.wf hv
+          simp only [h2] at hr
+          obtain ⟨hg2, r2, hr2, ha2⟩ := setUnicodes_spec h h2
+          have hv2 : (abs s2 n).isSome := by rw [ha2]; simp [upd]
+          obtain ⟨s3, h3⟩ := editRest_ok r.comps r.image r.outlineLoaded r.outlineFast hg2.wf hv2
+          simp [h3] at hr
+      · simp [hv, h]
+  | fwd n =>
+    simp only [step, specStep, Option.getD_some]
+    exact ⟨(fwd_spec h n).1, (fwd_spec h n).2.1⟩
+  | pseudo n =>
+    simp only [step, specStep, Option.getD_some]
+    exact ⟨(pseudo_spec h n).1, (pseudo_spec h n).2.1⟩
   | save =>
     simp only [step, specStep, Option.getD_some]
-    refine ⟨⟨wf_save h.wf, ?_, recsOK_congr (abs_save h.wf) h.recs⟩, abs_save h.wf⟩
+    refine ⟨⟨wf_save h.wf, ?_, scan_save h.wf h.scan⟩, abs_save h.wf⟩
     unfold UniOK
     apply uniInv_congr (fun k => (abs_save h.wf k).symm)
     exact h.uni
@@ -1292,6 +1992,83 @@ theorem run_refines (s : State) (ops : List Op) (h : Good s) (hops : OpsOK (abs 
     simp only [List.foldl_cons]
     rw [← hfe]
     exact this
+
+/-! ### the duplicate-free domain is closed under the operations (on the specification side) -/
+
+def FNodup (f : String → Option GRec) : Prop := ∀ n r, f n = some r → r.unicodes.Nodup
+
+def OpsNodup (ops : List Op) : Prop := ∀ op ∈ ops, OpNodup op
+
+instance (ops : List Op) : Decidable (OpsNodup ops) := by unfold OpsNodup; infer_instance
+
+theorem fnodup_upd_some {f : String → Option GRec} (h : FNodup f) (n : String) (r : GRec) (hr : r.unicodes.Nodup) :
+    FNodup (upd f n (some r)) := by
+  intro k x hk
+  unfold upd at hk
+  split at hk
+  · simp at hk; subst hk; exact hr
+  · exact h k x hk
+
+theorem fnodup_upd_none {f : String → Option GRec} (h : FNodup f) (n : String) : FNodup (upd f n none) := by
+  intro k x hk
+  unfold upd at hk
+  split at hk
+  · simp at hk
+  · exact h k x hk
+
+theorem fnodup_specTotal {f : String → Option GRec} (h : FNodup f) (op : Op) (hop : OpNodup op) :
+    FNodup (specTotal f op) := by
+  unfold specTotal
+  cases op with
+  | get n => simp only [specStep]; split <;> exact h
+  | new n => exact fnodup_upd_some h n {} (by simp)
+  | insert n r => exact fnodup_upd_some h n r hop
+  | delete n =>
+    simp only [specStep]; split
+    · exact fnodup_upd_none h n
+    · exact h
+  | rename o n =>
+    simp only [specStep]
+    cases ho : f o with
+    | none => exact h
+    | some r =>
+      simp only
+      split
+      · exact h
+      · exact fnodup_upd_some (fnodup_upd_none h o) n r (h o r ho)
+  | setUnicodes n us =>
+    simp only [specStep]
+    cases hn : f n with
+    | none => exact h
+    | some r => exact fnodup_upd_some h n _ hop
+  | setUnicode n v =>
+    simp only [specStep]
+    cases hn : f n with
+    | none => exact h
+    | some r => exact fnodup_upd_some h n _ (by cases v <;> simp [withUnicodes])
+  | edit n c i ol ofast =>
+    simp only [specStep]
+    cases hn : f n with
+    | none => exact h
+    | some r => exact fnodup_upd_some h n _ (h n r hn)
+  | reload n r =>
+    simp only [specStep]; split
+    · exact fnodup_upd_some h n r hop
+    · exact h
+  | save => exact h
+  | touchUni => exact h
+  | touch n => simp only [specStep]; split <;> exact h
+  | fwd n => exact h
+  | pseudo n => exact h
+
+theorem fnodup_specRun {f : String → Option GRec} (h : FNodup f) (ops : List Op) (hops : OpsNodup ops) :
+    FNodup (specRun f ops) := by
+  induction ops generalizing f with
+  | nil => exact h
+  | cons op ops ih =>
+    unfold specRun
+    simp only [List.foldl_cons]
+    exact ih (fnodup_specTotal h op (hops op (by simp))) (fun o ho => hops o (by simp [ho]))
 
 end Layer
 end DefconModel
